@@ -36,6 +36,11 @@ CHECKS = {
    text="Exhaustive small-scope enumeration on the real Schedule::new/view_leader: every weight vector over {1,2,3} up to 4 (quick) / 5 (thorough) validators x every non-empty eligible subset x both modes x frequency {0,1,2,3,7}, unit schedule of 10, extreme weights; every view of a 2268-element boundary set; every permutation of the input list. Oracle: no panic, eligible-only, order-independent, equality with an independent reference (own Keccak call, u128 reduction), constant for frequency 0, proportional share over 2000 turns.",
    note="sha3's Keccak-256 and the key byte encoding are trusted by the reference; weights > 3 and > 10 validators are outside the scope.",
    technique="exhaustive bounded enumeration of inputs (all schedules x views of a small scope) on the real code against a reference model"),
+ "C14": dict(
+   category="model_checking", design="DESIGN.md §4 C14, §2.2",
+   text="Stateless exploration under the controlled tokio scheduler of (i) two real Mux endpoints over an in-memory pipe with tiny limits (frame 8, buffer 32, 3 frames): scenario 1 forces reuse of a single reusable stream (server reads 10 of 20 bytes and drops the sub-stream; the next sub-stream must carry exactly its own bytes, EOF only for the counterpart), scenario 2 has three clients opening concurrently on a capability with limits 2/3 (tagged echo; simultaneously open sub-streams <= 2; no mixing); a scheduler-idle state with unfinished client/server tasks is a deadlock; (ii) one real Mux against a scripted raw peer that ignores flow control (floods DATA frames of 3/8/20 bytes while the application consumes 0/5/17 bytes; DATA before OPEN): bytes pulled from the transport beyond what the application consumed stay within read_buffer_size / read_frame_count accounting. All schedules within deviation bound 2 (quick, time-capped: the completed bound is reported) / 3 (thorough).",
+   note="The mux runs ~15 internal tasks (600-900 choice points per execution), so bound 2 is ~10^6 executions per scenario; when the time cap is hit the evidence reports the completed bound (1) and `exhaustive: false`. More than 3 concurrent streams and head-of-line blocking are outside the scope.",
+   technique="stateless model checking of the implementation under a controlled scheduler: exhaustive enumeration of task interleavings (deviation-bounded) of small client/server drivers and of a scripted adversarial peer, against per-stream byte-stream reference models and buffer accounting"),
  "C17": dict(
    category="model_checking", design="DESIGN.md §4 C17, §2.2",
    text="Stateless exploration on the real scope::run! under the controlled tokio scheduler (vendored tokio 1.45.1 + verif_sched patch: the explorer picks the next runnable task and every select! start branch): every program of a generated family of task trees (3360 programs quick / ~40k thorough: root body x up to 2-3 children, main/background, bodies {Ok, Err, panic, wait-for-cancel then Ok/Err}, a child that spawns a grandchild or runs a nested scope, caller context plain / cancelled while running / deadline passing on the manual clock / already cancelled) x every schedule within deviation bound 2 (quick) / 3 (thorough). Oracle over the event log: run! returns after the last task end; Ok iff nobody failed; otherwise the error of the first failing task in event order; any panic is re-raised (after all tasks ended); an idle scheduler while a cancellation is due (failure, all main tasks done, caller cancelled) is a lost-cancellation deadlock.",
